@@ -61,6 +61,7 @@ JudgeMove(e) ==
       legal == d.ok /\ d.m \in Legal(pos)
   IN IF ~WellFormed(pos) \/ ~Want("C19") THEN {}
      ELSE Chk("c19.move-crash", e.outcome # "crash")
+     \cup Chk("c19.move-never-returns", e.outcome # "hang")
      \cup Chk("c19.move-accepted-not-legal", e.outcome = "accepted" => legal)
      \cup Chk("c19.move-legal-rejected", (legal /\ d.canonical) => e.outcome = "accepted")
      \cup (IF e.outcome = "accepted" /\ legal
